@@ -41,6 +41,15 @@ def prepare(runner, r, base, model):
         genlib.edit_file(r, os.path.join(real, rel), fraction=0.6, skip=dups)
         if ro and r.random() < 0.6:
             os.chmod(os.path.join(real, rel), 0o444)      # sources checked out read-only: still replaced by rename, never removed first
+    if r.random() < 0.4:
+        # what an earlier, killed run left behind (a temporary file next to a target), and files of others
+        names_ = sorted(e2e.snapshot(real))
+        if names_:
+            with open(os.path.join(real, r.choice(names_) + ".kojen-tmp"), "w") as f:
+                f.write("half a file from a run that was kil")
+        os.makedirs(os.path.join(real, "docs"), exist_ok=True)
+        with open(os.path.join(real, "docs", "README.txt"), "w") as f:
+            f.write("// {{{USER_HEADER_INCLUDES}}}\nnot generated\n// {{{USER_HEADER_INCLUDES}}}\n")
     return real
 
 
@@ -113,13 +122,15 @@ def crash_case(runner, r, oc, reqs, pend, max_points, big=False, support_copy=Fa
             opname = ops[k][0] if k < n else "end"
             oc.stat("fault_at_" + opname)
             for rel, old in before.items():
+                if rel.endswith(".kojen-tmp"):
+                    continue        # a left-over temporary file is the stage's own scratch name, not a file to protect
                 new = after.get(rel)
                 if new != old and new != final.get(rel):
                     oc.violations.append(dict(what="after a %s at operation %d (%s) the pre-existing file %s is neither its old nor the complete new content" % (
                         "raised ENOSPC" if mode == "raise" else "process death", k, opname, rel),
                         model=model2, first_model=model, k=k, mode=mode, flushed=flush, old=old, got=new, complete_new=final.get(rel)))
                     return
-            leftovers = [p for p in after if p.endswith(".kojen-tmp")]
+            leftovers = [p for p in after if p.endswith(".kojen-tmp") and after[p] != before.get(p)]      # (not the one an earlier run left)
             if mode == "raise" and how == "raised" and leftovers:
                 oc.corr_failures.append(dict(what="temporary file left behind after a raised error: %s" % leftovers, model=model2, k=k))
             oc.case(("crash", json.dumps(model2, sort_keys=True, default=str), k, mode, flush), nontrivial=bool(before) and k < n)
@@ -175,6 +186,78 @@ class CopyRecorder:
         return out
 
 
+def writer_cases(r, oc, n):
+    """the two atomic writers on their own (cgen.writeFileAtomically, cgen.copyFileAtomically), every operation as a fault
+    point, on file names of ordinary and of boundary length (the longest names a file system takes: 255 bytes; a name whose
+    temporary twin no longer fits is refused with the file untouched)"""
+    import sys
+    cgen = sys.modules["kojen.cgen"]
+    for i in range(n):
+        with scratch() as base:
+            d = os.path.join(base, "out")
+            os.makedirs(d)
+            ln = [1, 12, 244, 245, 246, 250, 254, 255][i % 8] if i < 16 else r.choice([3, 40, 200, 245, 255])
+            name = ("N" * ln)[:max(ln - 2, 0)] + ".h"[-min(ln, 2):]
+            name = name[:ln] if len(name) >= ln else name + "x" * (ln - len(name))
+            target = os.path.join(d, name)
+            old = "old line\n// {{{USER_X}}}\nhand-written\n// {{{USER_X}}}\n"
+            with open(target, "w") as f:
+                f.write(old)
+            lines = ["new %d\n" % k for k in range(r.randint(1, 5))]
+            src = os.path.join(base, "shipped.h")
+            with open(src, "w") as f:
+                f.write("".join(lines))
+            which = r.choice(["write", "copy"])
+            call = (lambda: cgen.writeFileAtomically(target, lines)) if which == "write" else (lambda: cgen.copyFileAtomically(src, target))
+            if which == "copy" and not hasattr(cgen, "copyFileAtomically"):
+                continue
+            # reference run in a copy, to learn the operations
+            ref = os.path.join(base, "ref")
+            shutil.copytree(d, ref)
+            tref = os.path.join(ref, name)
+            with fsfault.Tracer(ref) as tr:
+                try:
+                    (cgen.writeFileAtomically(tref, lines) if which == "write" else cgen.copyFileAtomically(src, tref))
+                    refused = False
+                except OSError:
+                    refused = True      # ENAMETOOLONG for the temporary twin: allowed, as long as nothing is touched
+            nops = len(tr.ops)
+            final = e2e.snapshot(ref)
+            for k in range(nops + 1):
+                for mode in ("raise", "die"):
+                    work = os.path.join(base, "w")
+                    shutil.rmtree(work, ignore_errors=True)
+                    shutil.copytree(d, work)
+                    twork = os.path.join(work, name)
+                    fn = (lambda: cgen.writeFileAtomically(twork, lines)) if which == "write" else (lambda: cgen.copyFileAtomically(src, twork))
+                    if mode == "raise":
+                        with fsfault.Tracer(work, fail_at=k, mode="raise"):
+                            try:
+                                fn()
+                            except OSError:
+                                pass
+                    else:
+                        pid = os.fork()
+                        if pid == 0:
+                            try:
+                                with fsfault.Tracer(work, fail_at=k, mode="die", flush_before_death=r.random() < 0.5):
+                                    try:
+                                        fn()
+                                    except OSError:
+                                        pass
+                            finally:
+                                os._exit(0)
+                        os.waitpid(pid, 0)
+                    got = e2e.snapshot(work).get(name)
+                    oc.case(("writer", which, ln, k, mode), nontrivial=k < nops)
+                    if got != old.encode() and got != final.get(name):
+                        oc.violations.append(dict(what="%s on a file name of %d characters, %s at operation %d of %d: the pre-existing file is neither its old nor the complete new content (%s)" % (
+                            "writeFileAtomically" if which == "write" else "copyFileAtomically", ln, "raised ENOSPC" if mode == "raise" else "process death", k, nops,
+                            "missing" if got is None else "%d bytes" % len(got)), name_length=ln, writer=which, k=k, mode=mode, refused_when_complete=refused))
+                        return
+            oc.stat("writer_name_length_%d" % ln)
+
+
 def settle(oc, reqs, pend):
     answers = lean_batch(reqs)
     for (kind, info, impl), ans in zip(pend, answers):
@@ -222,6 +305,8 @@ def run(tier):
         crash_case(runner, r, oc, reqs, pend, 500 if thorough else 150, big=thorough, support_copy=i % 3 == 1)
         if oc.violations:
             break
+    if not oc.violations:
+        writer_cases(r, oc, 40 if thorough else 16)
     settle(oc, reqs, pend)
     return finish(PROP, tier, proof, oc, t0, level="proof", trusted=TRUSTED, search=search)
 
